@@ -10,6 +10,18 @@ IMPORTS = ("From Coq Require Import List Ascii String NArith ZArith Bool.\n"
 THEOREMS = ["should_cleanup_exact", "should_cleanup_never", "gc_safe", "gc_safe_keeps", "gc_live"]
 REFUTED = []
 DEPS = ["Strs", "Nets", "Gc", "GcP", "CorrBase", "C17c", "C17"]
+MANIFEST = {
+    "text": "Coq theorems over an executable model of flannelGC.cleanupIP / cleanupGCDirs / shouldCleanup for the docker and the "
+            "CRI path (should_cleanup_exact, should_cleanup_never, gc_safe and gc_safe_keeps for ALL directory contents, oracles "
+            "and histories; gc_live: at most k non-gone inspect answers for a container => none of its files left after k+1 "
+            "rounds, by a counting argument over the inspect-call counter); tied to the working tree by running ~800 cases (quick) "
+            "of 1-5 real NewFlannelGC rounds (verif hook VerifRound) with the real docker.NewDockerInterface against a fake Docker "
+            "daemon (unix socket) or a fake CRI gRPC RuntimeService + fake clientset, comparing directory listings, port-clean "
+            "callbacks and inspect counts per round, and evaluating gc_safe / gc_live as monitors on the implementation's listings",
+    "note": "trusted: Coq kernel (no axioms), Go harness fakes (Docker HTTP, CRI gRPC, clientset, temp dirs), python printers; "
+            "os.Remove succeeds, directories readable, only the GC writes them; one round = cleanupIP then cleanupGCDirs (Run()'s "
+            "timers not exercised); cleanupVeth (netlink), IPv6-named files and the real callback Galaxy.cleanIPtables not modelled",
+}
 KNOWN_FINDINGS = []
 
 DOCKER_ERR = ["err500", "badjson", "drop"]
@@ -336,18 +348,49 @@ def run(ctx):
     ctx.cov["monitor_failures"] = len(bad_safe) + len(bad_live)
 
 
+def py_owner(kind, e):
+    """python mirror of owner_ip / owner_gc, used only to word the message"""
+    if e.get("dir"):
+        return None
+    if kind == "gc":
+        return e["name"]
+    parts = e["name"].split(".")
+    if len(parts) != 4 or not all(p.isdigit() and (p == "0" or not p.startswith("0")) and int(p) < 256 for p in parts):
+        return None
+    c = e.get("content", "")
+    return c.split("\n")[0].strip(" \t\r\n\v\f") if c else None
+
+
 def explain_safe(case, o):
-    """names that vanished in a round in which their container got no 'gone' answer (python re-computation for the message)"""
+    """the removals of a round in which the file's container got no 'gone' answer (re-computed for the message)"""
     out = []
-    before = {"ip": [init_names(d) for d in case["ipdirs"]], "gc": [init_names(d) for d in case["gcdirs"]]}
+    pods = case.get("pods", {})
+    dirs = {"ip": case["ipdirs"], "gc": case["gcdirs"]}
+    before = {k: [init_names(d) for d in v] for k, v in dirs.items()}
+    calls_before = {}
     for r, rd in enumerate(o["rounds"]):
         for kind in ("ip", "gc"):
             for di, (b, a) in enumerate(zip(before[kind], rd[kind])):
                 for nme in (b or []):
-                    if nme not in (a or []):
-                        out.append("round %d: %sdir %d file %r removed" % (r + 1, kind, di, nme))
+                    if nme in (a or []):
+                        continue
+                    e = [x for x in dirs[kind][di]["entries"] if x["name"] == nme][0]
+                    c = py_owner(kind, e)
+                    if c is None:
+                        out.append("round %d: %s dir %d: %r belongs to no container but was removed" % (r + 1, kind, di, nme))
+                        continue
+                    script = case["oracle"].get(c) or [case["default"]]
+                    lo, hi = calls_before.get(c, 0), rd["calls"].get(c, 0)
+                    answers = [script[min(n, len(script) - 1)] for n in range(lo, hi)]
+                    if not any(is_gone(case["mode"], x, pods) for x in answers):
+                        out.append("round %d: %s dir %d: %r of container %r removed, inspect answered %s" % (
+                            r + 1, kind, di, nme, c, [x if isinstance(x, str) else canswer(case["mode"], x, pods) for x in answers]))
+        gone_gc = [n for b, a in zip(before["gc"], rd["gc"]) for n in (b or []) if n not in (a or [])]
+        if gone_gc != rd["ports"]:
+            out.append("round %d: port-clean callbacks %s but removed gc files %s" % (r + 1, rd["ports"], gone_gc))
         before = {"ip": rd["ip"], "gc": rd["gc"]}
-    return "; ".join(out[:6])
+        calls_before = rd["calls"]
+    return "; ".join(out[:4]) or "see replay"
 
 
 def replay(ctx, path):
